@@ -22,8 +22,9 @@ Definition cond_met (vars share : list (Z * Z)) (c : cond) : bool :=
 
 Definition chk_met (vars share : list (Z * Z)) (k : chk) : bool := forallb (cond_met vars share) (k_conds k).
 
-(* status codes as stored: 4 success 5 failed 6 canceled 10 skipped 8 blocked 9 continue *)
-Definition last_state (st : Z) : bool := zin st [4; 5; 6; 10].
+(* status codes as stored: 3 ending 4 success 5 failed 6 canceled 10 skipped 8 blocked 9 continue *)
+(** finished tasks, and (since the fix commit) tasks resumed in status ending (3), are not pre-checked *)
+Definition last_state (st : Z) : bool := zin st [4; 5; 6; 10; 3].
 
 (** outcome of one firing check: 10 skipped, 8 blocked, -1 error (invalid act) *)
 Definition fire (k : chk) : Z := if Z.eqb (k_act k) 1 then 10 else if Z.eqb (k_act k) 2 then 8 else -1.
